@@ -83,8 +83,11 @@ func runPicker(r *ev.Run, s *state, p *ref.Pos, b *board.Board, genList []move.M
 		switch {
 		case w.Move == h && n == 1 && wt == hashW:
 		case !noisy:
-			if wt < -3*maxHistory || wt > 3*maxHistory {
-				badWeight = fmt.Sprintf("quiet move %v yielded with weight %d outside +-%d", w.Move, wt, 3*maxHistory)
+			// what the property needs from a quiet weight: it never reaches a capture band (and so can
+			// never be the "already yielded" sentinel below it). How the space between the bands is
+			// used - three history tables, four, a separate slot for a counter move - is design.
+			if wt <= -captures || wt >= captures {
+				badWeight = fmt.Sprintf("quiet move %v yielded with weight %d: not strictly between the capture bands (+-%d)", w.Move, wt, captures)
 			}
 			s.lc.C["quiet_weights_checked"]++
 			if wt == 3*maxHistory || wt == -3*maxHistory {
